@@ -12,7 +12,10 @@ FORBIDDEN_ASYNCIO = {"create_task", "ensure_future", "as_completed", "wait", "wa
 FORBIDDEN_MODULES = {"threading", "concurrent", "concurrent.futures", "multiprocessing", "_thread", "queue", "sched", "signal"}
 # attribute slots known (by reading every ``bake``) to hold coroutine functions
 ASYNC_SLOTS = {"resolver", "output_coercer", "input_coercer", "literal_coercer", "coercer", "on_post_bake", "introspection_directives",
-               "pre_output_coercion_directives", "arguments_coercer"}
+               "pre_output_coercion_directives", "arguments_coercer", "_build_response", "_query_executor"}
+# parameter names that hold coroutine functions wherever they occur in the package (confirmed by reading the call sites)
+ASYNC_PARAMS = {"coercer", "inner_coercer", "directives", "resolver", "response_builder", "error_coercer", "directive_arguments_coercer", "input_coercer", "literal_coercer",
+                "output_coercer", "next_directive"}
 
 
 def asyncio_uses(repo: Repo) -> List[Tuple[Func, ast.AST, str]]:
@@ -64,6 +67,15 @@ def coroutine_calls(repo: Repo, func: Func) -> List[Tuple[ast.Call, str]]:
             continue
         if unparse(c.func) in awaited_callees:
             out.append((c, f"`{unparse(c.func)}` is awaited elsewhere in this function"))
+            continue
+        if isinstance(c.func, ast.Name) and c.func.id in ASYNC_PARAMS and func.is_async:
+            g = func
+            is_param = False
+            while g is not None:
+                is_param = is_param or c.func.id in [p.lstrip("*") for p in g.params]
+                g = g.parent
+            if is_param:
+                out.append((c, f"parameter `{c.func.id}` holds a coroutine function"))
     return out
 
 
@@ -76,6 +88,8 @@ def consumption(fv: FuncView, call: ast.Call) -> Tuple[bool, str]:
     if isinstance(par, ast.Await):
         return True, "awaited"
     if isinstance(par, ast.Return):
+        if fv.func.is_async and not fv.func.is_generator():
+            return False, "returned un-awaited from an `async def`: the awaiting caller receives a coroutine object, not the value"
         return True, "returned to the caller (who awaits it)"
     if isinstance(par, ast.Lambda):
         return True, "lambda body (evaluated and awaited by the caller)"
